@@ -40,7 +40,7 @@ CONFIG = {
                 "whose successor the runner verifies against Rules.successor; distinct = distinct (move, resulting position) pairs",
     },
     "C04": {
-        "ignore_ops": (), "sample_tags": ("snap", "stacks"),
+        "ignore_ops": (), "sample_tags": ("snap", "stacks"), "spec_tags": ("count",),
         "rule": "walks with random multi-ply undo and exhaustive trees; before every apply the harness stores a full snapshot (64 squares, turn, rights, "
                 "ep, both clocks, key, repetition top, the three stacks' contents, 15 bitboards) and compares it after the matching undo; every snapshot is "
                 "also compared with the model's state",
@@ -96,7 +96,7 @@ CONFIG = {
                 "when the rules say so) and the full board snapshot (64 squares, clocks, key, stacks, 15 bitboards) must be identical before and after; distinct = distinct (position, depth, answer)",
     },
     "C08": {
-        "ignore_ops": ("pos", "sctx", "apply", "toggle", "undo"), "spec_tags": ("search", "watch"), "sample_tags": ("search",),
+        "ignore_ops": ("pos", "sctx", "apply", "toggle", "undo"), "spec_tags": ("search", "sched", "watch"), "sample_tags": ("search",),
         "search_mode": "exact",
         "rule": "(last_score, move) of alpha_beta_search vs a pruning-free, cache-free minimax computed by the extracted model (score equal; the move must be one whose own "
                 "minimax value equals it), depths 1..3, fresh contexts and one context reused along the successive searches of a game",
@@ -150,6 +150,8 @@ def scenarios(pid, tier, seed):
             {"args": ["scen", "family=transpositions", "count=%d" % (40 if q else 400), "ops=genl,genlx", "sync=1", S], "shards": 1},
             {"args": ["scen", "family=epfamilies", "ops=genl", "sync=1", S], "shards": 1},
             {"args": ["scen", "family=revisits", "ops=genl", "walkpos=%d" % (60 if q else 2000), S], "shards": 4},
+            # positions with the same occupancy and another piece kind on one square (the four promotions of a pawn), one after the other
+            {"args": ["scen", "family=siblings", "ops=genl,genlx", "setups=%d" % (300 if q else 6000), "walkpos=0", S], "shards": 8},
             # the same placement met again after castling rights have gone (kings and home rooks out and back, three times over)
             {"args": ["scen", "family=rightsrevisits", "ops=genl", "rounds=3", "setups=%d" % (40 if q else 1500), "walkpos=0", S], "shards": 8},
         ]
@@ -163,6 +165,8 @@ def scenarios(pid, tier, seed):
         return [
             {"args": ["scen", "family=walk", "count=%d" % (48 if q else 480), "len=%d" % (150 if q else 400), "undo=20", "ops=snap,stacks,bbs", S], "shards": 16},
             {"args": ["scen", "family=tree", "depth=2", "budget=%d" % (100 if q else 3000), "ops=snap,stacks,bbs", S], "shards": 16},
+            # repetition bookkeeping through registrations, irreversible moves and take-backs
+            {"args": ["scen", "family=repetition", "count=%d" % (160 if q else 3000), "len=60", "undo=25", S], "shards": 16},
             # make/undo beyond the 100th quiet ply (the clock keeps counting after the draw threshold)
             {"args": ["scen", "family=walk", "names=quiet-clock", "count=%d" % (16 if q else 160), "len=120", "undo=20", "ops=snap,stacks", S], "shards": 16},
         ]
@@ -218,6 +222,9 @@ def scenarios(pid, tier, seed):
         return [
             {"args": ["scen", "family=revisits", "search=1", "ops=snap", "walkpos=%d" % (30 if q else 1500), S], "shards": 4},
             {"args": ["scen", "family=searches", "depths=0,1,2", "pools=%s" % ("1,4,16" if q else "1,2,4,16,64"), "walkpos=%d" % (4 if q else 400), S], "shards": 16},
+            # set-ups built around delicate arrangements (attacked castling squares, pins, en-passant lines): the answer must be legal
+            {"args": ["scen", "family=searches", "depths=1", "pools=1,4", "themed=%d" % (96 if q else 4000), "names=castle-dest", "walkpos=0", "maxpieces=%d" % (10 if q else 16), S], "shards": 16},
+            {"args": ["scen", "family=searches", "depths=1,2,3", "pools=1,4", "names=castle-dest,castle-attacked,castle-through,castle-in-check,castle-bfile", "walkpos=0", S], "shards": 8},
             # the same placement at half-move clocks up to and beyond the move-count draw, and after a third registration:
             # the side to move still has its legal moves and the search must answer with one
             {"args": ["scen", "family=searches", "depths=1", "pools=1,4", "clocks=1", "maxpieces=%d" % (6 if q else 32), "walkpos=%d" % (4 if q else 200), S], "shards": 16},
@@ -236,6 +243,8 @@ def scenarios(pid, tier, seed):
             # search.  Decided by the harness against a plain minimax over the engine's own generator and leaf score
             # (the extracted model needs ~25 s per depth-5 position; it is the oracle of the thorough tier's sample below)
             {"args": ["scen", "family=searches", "depths=5", "pools=1,4", "selfmm=1", "maxpieces=4", "walkpos=%d" % (400 if q else 1200), "game=%d" % (0 if q else 2), S], "shards": 16},
+            # "parallelism changes speed only": perturbed schedules with the cache-write observer (one key, one value), answers equal to the model's minimax
+            {"args": ["scen", "family=schedules", "pid=C08", "depths=%s" % ("2" if q else "2,3"), "per=%d" % (4 if q else 10), "walkpos=%d" % (0 if q else 80), "maxpieces=%d" % (4 if q else 12), S], "shards": 16},
             # the score the real watch loop shows for every searched move
             {"args": ["scen", "family=watch", "games=%d" % (2 if q else 16), "limit=%d" % (16 if q else 60), S], "shards": 2},
             # depth 6 in mating nets (lone king v two heavy pieces): forced mates of different lengths inside the horizon
@@ -246,6 +255,8 @@ def scenarios(pid, tier, seed):
     if pid == "C09":
         return [
             {"args": ["scen", "family=schedules", "depths=2", "per=%d" % (4 if q else 12), "walkpos=%d" % (3 if q else 200), "maxpieces=%d" % (9 if q else 32), S], "shards": 16},
+            # few root moves, one of them mating or stalemating: far more workers than root moves
+            {"args": ["scen", "family=schedules", "depths=2,3", "per=3", "pools=1,2,4,16,64", "names=underpromo-mate,single-reply,stalemate,castle-gives-mate,castle-mate,promo-in-check,mated,bare-kings", "walkpos=0", S], "shards": 8},
             {"args": ["scen", "family=schedules", "depths=3", "per=%d" % (3 if q else 12), "walkpos=%d" % (2 if q else 120), "maxpieces=%d" % (4 if q else 12), S], "shards": 16},
         ]
     if pid == "C10":
@@ -253,6 +264,8 @@ def scenarios(pid, tier, seed):
             {"args": ["scen", "family=perfts", "depth=%d" % (2 if q else 3), "walkpos=%d" % (16 if q else 200), S], "shards": 16},
             # depth 4 is where two move orders under one root first reach one placement with and without a live en-passant capture
             {"args": ["scen", "family=perfts", "depth=4", "maxpieces=%d" % (5 if q else 7), "walkpos=%d" % (0 if q else 60), S], "shards": 16},
+            # castling rights, en-passant captures made and unmade, and later siblings that may still castle
+            {"args": ["scen", "family=perfts", "depth=%d" % (3 if q else 4), "names=%s" % ("ep-castle-perft" if q else "ep-castle-perft,castle-promo-rooks,castle-all"), "walkpos=0", S], "shards": 4},
             # the command-line driver itself (`chess count-positions --depth d`: one generator reused across the depths)
             {"args": ["scen", "family=clicount", "depth=%d" % (2 if q else 3), S], "shards": 1},
             # depths 5 (and 6): where one root move's subtree first meets a position again with less depth remaining
